@@ -36,7 +36,8 @@ def lname(n):
 
 
 class Tr:
-    def __init__(self, consts=None, funcs=None, int_names=()):
+    def __init__(self, consts=None, funcs=None, int_names=(), matmul=None):
+        self.matmul = matmul            # lean function standing for numpy's `@` (None: `@` is untranslatable)
         self.consts = consts or {}      # python dotted name -> lean text
         self.funcs = dict(FUNCS)
         self.funcs.update(funcs or {})
@@ -97,6 +98,8 @@ class Tr:
             b = self.expr(e.right)
             op = {ast.Add: "+", ast.Sub: "-", ast.Mult: "*", ast.Div: "/"}.get(type(e.op))
             if op is None:
+                if isinstance(e.op, ast.MatMult) and self.matmul:
+                    return f"({self.matmul} {a} {b})"
                 if isinstance(e.op, ast.Mod):
                     return f"(fmod {a} {b})"
                 raise Untranslatable(f"operator {type(e.op).__name__}")
